@@ -167,4 +167,18 @@ example :
     (nodeCmp { c with err := some .userFail, brkD := 3, bnd := [.json] } (lit "x") (lit "5") false true .eq).1 = true ∧
     (nodeCmp c (lit "nope.f") (lit "5") false true .eq).1 = false := by decide
 
+
+/-- **A helper condition does not depend on an error left by an earlier node** (repair: with literal arguments only —
+    or none — `ctx.Err` was never reset and the render failed with the stale error). -/
+theorem helper_cond_ignores_stale_error (c : Ctx) (cd : CondSpec) (e : Option Err)
+    (hh : (!cd.hlp.isEmpty && cd.lc == 0) = true) :
+    evalCond { c with err := e } cd = evalCond { c with err := none } cd := by
+  unfold evalCond
+  simp only [hh, if_true, Ctx.clrErr]
+
+theorem helper_case_ignores_stale_error (c : Ctx) (k : CaseSpec) (e : Option Err) (hh : k.hlp.isEmpty = false) :
+    evalCase { c with err := e } [] k = evalCase { c with err := none } [] k := by
+  unfold evalCase
+  simp [hh, Ctx.clrErr]
+
 end DyntplV.C02
